@@ -39,9 +39,13 @@ seeds3 = []
 for d in sorted(glob.glob(os.path.join(V, "seeded3/C*"))):
     m = json.load(open(os.path.join(d, "meta.json")))
     seeds3.append(f"| {m['property']} | `{m['file']}` | {m['needs_to_manifest']} | {m['detected_by']} |")
+seeds4 = []
+for d in sorted(glob.glob(os.path.join(V, "seeded4/C*"))):
+    m = json.load(open(os.path.join(d, "meta.json")))
+    seeds4.append(f"| {m['property']} | `{m['file']}` | {m['needs_to_manifest']} | {m['detected_by']} |")
 corr = open(os.path.join(V, "NOTES_corrections.md")).read().split("\n", 1)[1].strip()
 out = (src.replace("@@PERPROP@@", per.strip()).replace("@@FIXES@@", "\n".join(fixes)).replace("@@THEOREMS@@", "\n".join(thm))
-       .replace("@@SEEDS@@", "\n".join(seeds)).replace("@@SEEDS2@@", "\n".join(seeds2)).replace("@@SEEDS3@@", "\n".join(seeds3)).replace("@@CORRECTIONS@@", corr)
+       .replace("@@SEEDS@@", "\n".join(seeds)).replace("@@SEEDS2@@", "\n".join(seeds2)).replace("@@SEEDS3@@", "\n".join(seeds3)).replace("@@SEEDS4@@", "\n".join(seeds4)).replace("@@CORRECTIONS@@", corr)
        .replace("@@MODEL_LINES@@", str(sum(len(open(f).read().split("\n")) for f in model)))
        .replace("@@NPROPTHM@@", str(count(r"^(theorem|example)", props))).replace("@@NLEMMA@@", str(count(r"^theorem", proofs)))
        .replace("@@NFIX@@", str(len(kf["fixed"]))))
